@@ -332,6 +332,12 @@ class _Expr(ast.NodeTransformer):
 
     def visit_Subscript(self, n: ast.Subscript):
         self.generic_visit(n)
+        # X.partition(S)[0]  ->  X.split(S, 1)[0]      (the text in front of the first S, or all of it)
+        if isinstance(n.ctx, ast.Load) and isinstance(n.slice, ast.Constant) and n.slice.value == 0 and isinstance(n.value, ast.Call) \
+                and isinstance(n.value.func, ast.Attribute) and n.value.func.attr == "partition" and len(n.value.args) == 1 and not n.value.keywords:
+            self.changed = True
+            call = ast.Call(func=ast.Attribute(value=n.value.func.value, attr="split", ctx=ast.Load()), args=[n.value.args[0], ast.Constant(value=1)], keywords=[])
+            return ast.copy_location(ast.Subscript(value=call, slice=ast.Constant(value=0), ctx=ast.Load()), n)
         if isinstance(n.ctx, ast.Load) and not isinstance(n.slice, ast.Slice) and _simple_key(n.slice):
             rows = self.t.rows(n.value)
             if isinstance(rows, list):
